@@ -495,6 +495,43 @@ def operator_table():
                  Echo(Bin("==", Call("idl", Var("w%d" % j)), Idx(Var("a%d" % j), I(0)))),
                  Decl(P("long"), "x%d" % j, L(0)),
                  While(Bin("<", Var("x%d" % j), I(0)), [Expr(Asg("x%d" % j, Var("w%d" % j)))]))])]))
+    # typed array literals mixing the element types the documentation allows (int[]: int, bit, float truncated; float[]: float, int, bit),
+    # in every order of the differently typed elements
+    mixes = {"int": [I(7), Bit(1), F(29, 10), I(-2), Bit(0), F(-29, 10)], "float": [F(5, 2), I(3), Bit(1), F(-1, 2), I(-4)]}
+    body = []
+    k = 0
+    for et, elems in mixes.items():
+        for perm in itertools.permutations(range(3)):
+            for tail in ([], elems[3:]):
+                es = [elems[i] for i in perm] + tail
+                k += 1
+                body += [Decl(A(et), "m%d" % k, Arr(et, es)), Echo(Var("m%d" % k)), Echo(Idx(Var("m%d" % k), I(len(es) - 1))),
+                         Echo(Bin("+", Idx(Var("m%d" % k), I(0)), Idx(Var("m%d" % k), I(1))))]
+    progs.append(Program([Func("main", [], VOID, body)]))
+    # left-associative '+' chains mixing arithmetic and concatenation: the value depends on where the first string
+    # operand stands (1 + 2 + "s" is "3s", "s" + 1 + 2 is "s12"); rendered a second time without redundant parentheses
+    def chain(xs):
+        e = xs[0]
+        for x in xs[1:]:
+            e = Bin("+", e, x)
+        return e
+    nums = [I(1), I(2), L(40), F(1, 2), F(1, 2), I(-3), Bit(1)]
+    body = [Decl(P("int"), "ca", I(1)), Decl(P("int"), "cb", I(2)), Decl(P("float"), "cf", F(1, 2)), Decl(P("long"), "cl", L(5000000000)),
+            Decl(P("string"), "cs", S(" v"))]
+    vars_ = [Var("ca"), Var("cb"), Var("cf"), Var("cl")]
+    for pool in (nums, vars_):
+        for n in (2, 3, 4):
+            for xs in itertools.islice(itertools.permutations(pool, n), 0, 40, 3):
+                xs = list(xs)
+                for pos in range(n + 1):
+                    for s_ in (S(" t"), Var("cs")):
+                        body.append(Echo(chain(xs[:pos] + [s_] + xs[pos:])))
+                body.append(Echo(chain(xs[:1] + [S("|")] + xs[1:] + [S("|")])))
+                body.append(Echo(Bin("+", chain(xs), Bin("+", S("<"), chain(xs)))))
+                body.append(Echo(chain([Bin("*", xs[0], xs[1])] + xs[1:] + [S(" m")])))
+                body.append(Echo(chain(xs + [S(" m"), Bin("*", xs[0], xs[1])])))
+    for k in range(0, len(body), 60):
+        progs.append(Program([Func("main", [], VOID, body[:5] + body[max(5, k):k + 60])]))
     tyname = {"int": "int", "long": "long", "float": "float", "bool": "bool", "bit": "bit", "str": "str", "char": "char"}
     vb = []
     for c in batch:
